@@ -270,7 +270,10 @@ def _chain_tree(chain, shape, letters):
 
 def scenarios(tier, seed):
     letters = 'abcdefghijklmnopqrstuvwxyzABCDEFGHIJKLMNOPQRSTUVWXYZ0123456789'
-    out = [[], [('t', 'a')], [('t', 'a'), ('t', '  '), ('l', 2), ('t', '# '), ('t', ' '), ('l', 0), ('a', 'T1', [('t', 'b'), ('t', ' ')]), ('t', ' ')], [('t', 'a\tb'), ('a', 'T1', [('t', 'c\td')])], [('t', 'a '), ('l', 0), ('t', ' '), ('l', 3), ('t', 'b')], [('l', 2)], [('a', 'N', [])], [('a', 'T1', [])]]
+    out = [[], [('t', 'a')], [('t', 'a'), ('t', '  '), ('l', 2), ('t', '# '), ('t', ' '), ('l', 0), ('a', 'T1', [('t', 'b'), ('t', ' ')]), ('t', ' ')], [('t', 'a\tb'), ('a', 'T1', [('t', 'c\td')])], [('t', 'a '), ('l', 0), ('t', ' '), ('l', 3), ('t', 'b')], [('l', 2)], [('a', 'N', [])], [('a', 'T1', [])],
+           # trailing whitespace other than plain spaces (a repr ending in a tab, a no-break space, a form feed): both renderers trim it alike
+           [('t', 'a\t'), ('l', 0), ('t', 'b\xa0'), ('l', 2), ('a', 'T1', [('t', 'c \t ')]), ('l', 0), ('t', 'd\x0c')],
+           [('a', 'T2', [('t', 'x'), ('t', '\t')]), ('l', 1), ('t', 'y')]]
     for depth in (1, 2, 3):
         for chain in itertools.product(['T1', 'T2', 'N'], repeat=depth):
             for shape in ('texts', 'lines', 'tight', 'siblings'):
